@@ -28,6 +28,8 @@ def main(argv=None):
     ap.add_argument("--no-evidence", action="store_true")
     ap.add_argument("--digests", action="store_true", help="print one line per night: idx digest (determinism self-test)")
     ap.add_argument("--max-report", type=int, default=3)
+    ap.add_argument("--only", help="comma separated night indices")
+    ap.add_argument("--no-post", action="store_true")
     a = ap.parse_args(argv)
     prop = a.prop.upper()
     t_start = time.time()
@@ -63,7 +65,8 @@ def main(argv=None):
 
         # 2. the seeded search
         family, seed, results, harness_errors, wall = fw.run_batch(
-            prop, a.tier, nights=a.nights, workers=a.workers, wall_s=a.wall
+            prop, a.tier, nights=a.nights, workers=a.workers, wall_s=a.wall,
+            indices=[int(x) for x in a.only.split(",")] if a.only else None,
         )
         if harness_errors:
             for idx, he in harness_errors[:3]:
@@ -91,6 +94,15 @@ def main(argv=None):
                     continue
                 seen_sigs.add(s)
                 new.append((idx, v, r["spec"]))
+        extra_cov = {}
+        if hasattr(family, "post_batch") and not a.no_post and not a.only:
+            for idx, v, spec in family.post_batch(seed, a.tier, results, extra_cov):
+                if any(e.get("_live", True) and fw.matches_known(v, e) for e in known if e.get("suppress", True)):
+                    suppressed += 1
+                    continue
+                if fw.sig_of_dict(v) not in seen_sigs:
+                    seen_sigs.add(fw.sig_of_dict(v))
+                    new.append((idx, v, spec))
         reported = 0
         for idx, v, spec in new[: a.max_report]:
             final_spec = spec
@@ -113,7 +125,7 @@ def main(argv=None):
             reported += 1
         if not a.no_evidence:
             fw.write_evidence(family, a.tier, seed, results, time.time() - t_start, len(new), known_reproduced,
-                              extra_cov=dict(known_finding_matches_suppressed=suppressed))
+                              extra_cov=dict(extra_cov, known_finding_matches_suppressed=suppressed))
         if not a.quiet:
             tot = sum(r["stats"]["polls"] for r in results.values())
             print(f"{prop} {a.tier}: nights={len(results)} polls={tot} new_violations={len(new)} "
